@@ -56,7 +56,52 @@ def always_resets(repo, cls, cache: Dict[str, bool], name: str, depth=3) -> bool
     return cache[name]
 
 
+def check_same_pipeline(ctx):
+    """C06.S: compile() and the flush path turn a proto-subroutine into a Subroutine through the same builder call, and that
+    call assembles and then applies the connection's transpiler (sibling agreement: what flush sends is what compile returns)."""
+    repo = ctx.repo
+    m = repo.module(CONN)
+    conv = {}
+    for c in m.classes.values():
+        for name in ("compile", "commit_protosubroutine"):
+            fn = c.methods.get(name)
+            if fn is None:
+                continue
+            ctx.fn(f"{c.name}.{name}")
+            # the proto-subroutine: popped from the builder (compile) or the parameter (commit_protosubroutine)
+            protos = {k for k, v in A.single_defs(fn).items() if isinstance(v, ast.Call) and A.call_name(v) == POP} | {p for p in A.param_names(fn) if "proto" in p}
+            calls = []
+            for st in A.body_nodes(fn):
+                if isinstance(st, ast.Assign) and isinstance(st.value, ast.Call) and any(isinstance(a, ast.Name) and a.id in protos for a in list(st.value.args) + [k.value for k in st.value.keywords]):
+                    calls.append(A.norm(st.value.func))
+            conv[f"{c.name}.{name}"] = calls
+    ctx.anchor("C06.S", "methods converting a proto-subroutine", len(conv), 2)
+    kinds = {tuple(v) for v in conv.values()}
+    ctx.check("C06.S", "compile-and-flush-convert-the-proto-subroutine-the-same-way", len(kinds) == 1 and all(len(v) == 1 for v in conv.values()),
+              f"the proto-subroutine is converted by {conv}: compile() and the flush path must use the same single builder call, otherwise a pre-compiled subroutine "
+              "is not what a flush of the same operations sends (e.g. it misses the NV transpilation)", "netqasm/sdk/connection.py", sample={"conversions": conv})
+    b = repo.get_class("netqasm.sdk.builder", "Builder")
+    used = {v[0].split(".")[-1] for v in conv.values() if v}
+    for meth in sorted(used):
+        f = b.methods.get(meth)
+        if f is None:
+            ctx.check("C06.S", f"Builder.{meth}:exists", False, f"the conversion `{meth}` is not a Builder method", "netqasm/sdk/builder.py")
+            continue
+        ctx.fn(f"Builder.{meth}")
+        pp = A.param_names(f)[1]
+        rets = A.returns(f)
+        rv = rets[0].value.id if len(rets) == 1 and isinstance(rets[0].value, ast.Name) else None
+        multi = A.assigned_names(f)
+        vals = [A.norm(v) for v in multi.get(rv, []) if v is not None] if rv else []
+        assembled = any(v == f"assemble_subroutine({pp})" for v in vals)
+        transp = [st for st in f.body if isinstance(st, ast.If) and A.norm(st.test) == "self._compilerisnotNone" and
+                  any(isinstance(x, ast.Assign) and A.norm(x.targets[0]) == rv and A.norm(x.value) == f"self._compiler(subroutine={rv}).transpile()" for x in st.body)]
+        ctx.check("C06.S", f"Builder.{meth}:assemble-then-transpile", assembled and len(transp) == 1,
+                  f"Builder.{meth} does not return assemble_subroutine(<proto>) passed through the connection's transpiler when one is configured", b.loc(f))
+
+
 def run(ctx):
+    check_same_pipeline(ctx)
     repo = ctx.repo
     m = repo.module(CONN)
     n_pop = 0
@@ -185,6 +230,11 @@ def run(ctx):
 CN = "netqasm/sdk/connection.py"
 SU = "netqasm/lang/subroutine.py"
 SEEDS = [
+    dict(id="c06-compile-assembles-only", file="netqasm/sdk/connection.py", expect="C06.S", construct="compile-and-flush",
+         old="        subroutine = self._builder.subrt_compile_subroutine(protosubroutine)\n\n        # The arrays and registers", new="        subroutine = assemble_subroutine(protosubroutine)\n\n        # The arrays and registers"),
+    dict(id="c06-builder-skips-transpiler", file="netqasm/sdk/builder.py", expect="C06.S", construct="assemble-then-transpile",
+         old="        if self._compiler is not None:\n            subroutine = self._compiler(subroutine=subroutine).transpile()\n", new="        if self._compiler is not None and self._track_lines:\n            subroutine = self._compiler(subroutine=subroutine).transpile()\n"),
+
     dict(id="c06-orig-compile-no-reset", file=CN, expect="C06.R", construct="compile", old="        self._builder._reset()\n\n        return subroutine\n", new="        return subroutine\n"),
     dict(id="c06-commit-no-reset", file=CN, expect="C06.R", construct="flush", old="        self.commit_subroutine(subroutine, block, callback)\n\n        self._builder._reset()", new="        self.commit_subroutine(subroutine, block, callback)"),
     dict(id="c06-reset-conditional", file=CN, expect="C06.R", construct="flush", old="        self.commit_subroutine(subroutine, block, callback)\n\n        self._builder._reset()", new="        self.commit_subroutine(subroutine, block, callback)\n\n        if block:\n            self._builder._reset()"),
